@@ -163,7 +163,7 @@ fn debug_script(which: u64, rng: &mut Rng) -> (script::Config, Vec<Step>) {
     let mut cfg = g.config(Focus::Links);
     drop(g);
     cfg.remotes = 2;
-    cfg.cap_out = if which == 4 || which == 6 { vec![8; 3] } else { vec![4096; 3] };
+    cfg.cap_out = if which == 4 || which == 6 || which == 7 || which == 8 { vec![8; 3] } else { vec![4096; 3] };
     cfg.cap_in = vec![4096; 3];
     cfg.pace = vec![remote::FAST; 3];
     cfg.jitter_per_mille = 0;
@@ -264,6 +264,28 @@ fn debug_script(which: u64, rng: &mut Rng) -> (script::Config, Vec<Step>) {
             set("a2"),
             Step::Settle,
         ],
+        // a remote without links is removed for inactivity while the answer to its last request is still being
+        // written to its stalled reader; its id attaches again; then the old reader resumes (7) or is dropped (8)
+        7 | 8 => {
+            cfg.prune_ms = Some(3);
+            vec![
+                Step::Attach(0),
+                Step::Settle,
+                Step::Stall(0),
+                Step::Link(0, "nope".into()),
+                Step::Quiesce,
+                Step::Advance(5),
+                Step::Quiesce,
+                Step::ReattachOver(0),
+                Step::Link(0, "v0".into()),
+                Step::Quiesce,
+                if which == 7 { Step::ResumeOld(0) } else { Step::DropOld(0) },
+                Step::Quiesce,
+                set("a1"),
+                Step::Sync(0, "v0".into()),
+                Step::Settle,
+            ]
+        }
         _ => vec![Step::Attach(0), Step::Sync(0, "m1".into()), Step::Settle],
     };
     (cfg, script)
